@@ -8,6 +8,8 @@ package main
 import (
 	"encoding/json"
 	"fmt"
+	"io"
+	"log"
 	"os"
 
 	"verif/internal/checks"
@@ -15,6 +17,7 @@ import (
 )
 
 func main() {
+	log.SetOutput(io.Discard) // the stores log cache warm-ups through the std logger
 	args := os.Args[1:]
 	if len(args) == 0 {
 		fmt.Fprintln(os.Stderr, "usage: vcheck <Cxx> [--tier quick|thorough] [--replay file] [--only case]")
